@@ -5,7 +5,13 @@
        4 custom on TRIPLES of unsigned (product of upper triangular 2x2 matrices mod 2^32: associative, not commutative;
          an operand of three items never divides a power-of-two piece of the buffer)
    dtype: 0 int 1 unsigned 2 long 3 float 4 double 5 char 6 short 7 unsigned long 8 long long
-   The harness reads the input values from the line following each run line: <P*count> hex words (bit patterns). */
+   The harness reads the input values from the line following each run line: <P*count> hex words (bit patterns).
+   SEQUENCES of calls on one communicator, back to back, no barrier in between:
+     seq <P> <seed> <adversary> <ncalls>
+     <op> <dtype> <count> <target|-1>        \ ncalls times
+     <P*count hex words>                     /
+   every rank issues the calls in this order, with fresh buffers per call; after each call the rank writes the trace note
+   "call-end"; the outputs are printed as OUT <rank> <hex of call 0>/<hex of call 1>/... ("-" for an empty buffer). */
 #include <sc.h>
 #include <sc_reduce.h>
 #include <simmpi.h>
@@ -53,6 +59,17 @@ static void rank_main (int rank, int size, void *varg)
   SC_FREE (in);
 }
 
+typedef struct { int ncalls; arg_t *calls; } seq_t;
+
+static void rank_main_seq (int rank, int size, void *varg)
+{
+  seq_t *q = (seq_t *) varg;
+  for (int j = 0; j < q->ncalls; ++j) {
+    rank_main (rank, size, &q->calls[j]);
+    simmpi_trace_note ("call-end");
+  }
+}
+
 int main (void)
 {
   static char line[1 << 24];
@@ -63,6 +80,48 @@ int main (void)
   snprintf (tpath, sizeof tpath, "%s/trace.%d.jsonl", getenv ("VERIF_SCRATCH") ? getenv ("VERIF_SCRATCH") : "/var/tmp", (int) getpid ());
   while (fgets (line, sizeof line, stdin)) {
     int P, adv; unsigned long seed; unsigned dseed; arg_t a;
+    if (strncmp (line, "seq ", 4) == 0) {
+      seq_t q; int ok = 1;
+      if (sscanf (line + 4, "%d %lu %d %d", &P, &seed, &adv, &q.ncalls) < 4 || q.ncalls < 1 || q.ncalls > 64) continue;
+      q.calls = (arg_t *) calloc ((size_t) q.ncalls, sizeof (arg_t));
+      for (int j = 0; j < q.ncalls && ok; ++j) {
+        arg_t *c = &q.calls[j];
+        if (!fgets (line, sizeof line, stdin) || sscanf (line, "%d %d %d %d", &c->op, &c->dt, &c->count, &c->target) < 4) { ok = 0; break; }
+        if (!fgets (line, sizeof line, stdin)) { ok = 0; break; }
+        c->esz = szs[c->dt];
+        c->vals = (uint64_t *) calloc ((size_t) P * c->count + 1, sizeof (uint64_t));
+        { size_t k = 0; for (char *p = strtok (line, " \n"); p && k < (size_t) P * c->count; p = strtok (NULL, " \n")) c->vals[k++] = strtoull (p, NULL, 16); }
+        c->out = (unsigned char **) calloc ((size_t) P, sizeof (unsigned char *));
+      }
+      if (!ok) break;
+      int mem0 = (sc_memory_status (-1) + sc_memory_status (sc_package_id));
+      simmpi_opts o; simmpi_report rep;
+      simmpi_opts_default (&o);
+      o.nranks = P; o.seed = seed; o.adversary = adv; o.trace_path = tpath;
+      int rc = simmpi_run (&o, rank_main_seq, &q, &rep);
+      printf ("RUN %d rc=%d steps=%ld\n", run, rc, rep.steps);
+      if (rc) { char *t = rep.text; for (char *p = t; *p; ++p) if (*p == '\n') *p = '~'; printf ("REPORT %s\n", t); }
+      for (int r = 0; r < P; ++r) {
+        printf ("OUT %d ", r);
+        for (int j = 0; j < q.ncalls; ++j) {
+          arg_t *c = &q.calls[j];
+          if (j) printf ("/");
+          if (c->out[r]) { size_t b = c->esz * (size_t) c->count; for (size_t k = 0; k < b; ++k) printf ("%02x", c->out[r][k]); if (b == 0) printf ("-"); SC_FREE (c->out[r]); }
+          else printf ("none");
+        }
+        printf ("\n");
+      }
+      printf ("TRACE-BEGIN\n");
+      FILE *f = fopen (tpath, "r");
+      if (f) { char buf[65536]; size_t k; while ((k = fread (buf, 1, sizeof buf, f)) > 0) fwrite (buf, 1, k, stdout); fclose (f); }
+      printf ("TRACE-END\n");
+      printf ("END %d mem=%d\n", run, (sc_memory_status (-1) + sc_memory_status (sc_package_id)) - mem0);
+      simmpi_report_free (&rep);
+      for (int j = 0; j < q.ncalls; ++j) { free (q.calls[j].out); free (q.calls[j].vals); }
+      free (q.calls);
+      ++run;
+      continue;
+    }
     if (sscanf (line, "%d %lu %d %d %d %d %d %u", &P, &seed, &adv, &a.op, &a.dt, &a.count, &a.target, &dseed) < 8) continue;
     if (!fgets (line, sizeof line, stdin)) break;
     a.esz = szs[a.dt];
